@@ -459,6 +459,88 @@ func c20Exhaustive(c *fw.Ctx, idx int) {
 
 var _ = big.NewRat
 
+// c20EveryLength: sequences of exactly idx points, idx = 0, 1, 2, ..., whose
+// simplification is known in closed form - a straight unit-step line (only the
+// ends stay), idx copies of one point (only the ends stay), a zig-zag of
+// amplitude 10 under threshold 1 (everything stays) and a closed zig-zag ring: an
+// implementation that treats long inputs in blocks, or differently from a size on,
+// is asked at every size.
+func c20EveryLength(c *fw.Ctx, idx int) {
+	n := idx
+	for _, stride := range []int{2, 3} {
+		mk := func(f func(i int) (float64, float64)) []float64 {
+			flat := make([]float64, n*stride)
+			for i := 0; i < n; i++ {
+				flat[i*stride], flat[i*stride+1] = f(i)
+				if stride == 3 {
+					flat[i*stride+2] = float64(i%5) * 1000
+				}
+			}
+			return flat
+		}
+		ends := []int{0, n - 1}
+		if n < 2 {
+			ends = make([]int, n)
+		}
+		all := make([]int, n)
+		for i := range all {
+			all[i] = i
+		}
+		shapes := []struct {
+			name string
+			flat []float64
+			thr  float64
+			want []int
+		}{
+			{"straight unit-step line", mk(func(i int) (float64, float64) { return float64(i), 2 }), 0.5, ends},
+			{"straight vertical unit-step line", mk(func(i int) (float64, float64) { return 3, float64(i) }), 0.25, ends},
+			{"one point repeated", mk(func(i int) (float64, float64) { return 4, -4 }), 1, ends},
+		}
+		// (keeping every point costs the algorithm n^2/2 distance evaluations: all
+		// lengths up to 2000, beyond that the lengths next to multiples of 64)
+		zz := n <= 2000 || n <= 12000 && (n%64 <= 2 || n%64 == 63)
+		if zz {
+			shapes = append(shapes, struct {
+				name string
+				flat []float64
+				thr  float64
+				want []int
+			}{"zig-zag of amplitude 10", mk(func(i int) (float64, float64) { return float64(i), float64(10 * (i % 2)) }), 1, all})
+		}
+		if n >= 4 && zz {
+			// closed ring: zig-zag out along y = 0/10 and the start point again at the end
+			fl := mk(func(i int) (float64, float64) { return float64(i), float64(10 * (i % 2)) })
+			fl[(n-1)*stride], fl[(n-1)*stride+1] = fl[0], fl[1]
+			shapes = append(shapes, struct {
+				name string
+				flat []float64
+				thr  float64
+				want []int
+			}{"zig-zag that ends on its first point", fl, 1, all})
+		}
+		for _, sh := range shapes {
+			c.SetInput(map[string]any{"shape": sh.name, "points": n, "stride": stride, "threshold": sh.thr})
+			var got []int
+			if c.Guard("panic", func() { got = xy.SimplifyFlatCoords(sh.flat, sh.thr, stride) }) {
+				return
+			}
+			c.Eval(1)
+			if !intsEq(got, sh.want) {
+				show := got
+				if len(show) > 12 {
+					show = append(append([]int{}, show[:6]...), show[len(show)-6:]...)
+				}
+				c.Fail("bad-indexes", "%s of %d points, threshold %v: %d indexes returned (%v ...), the simplification keeps %d (%s)", sh.name, n, sh.thr, len(got), show, len(sh.want), map[bool]string{true: "every point", false: "the two ends only"}[len(sh.want) == n])
+				return
+			}
+		}
+	}
+	c.Count("sequence_lengths_simplified")
+	if idx%1000 == 0 {
+		c.Distinct(fmt.Sprintf("every-length/%d", idx))
+	}
+}
+
 func init() {
 	exhN := 1 + 9 + 81 + 729 + 6561 + 59049 + 531441
 	fw.Register(&fw.Monitor{
@@ -468,6 +550,7 @@ func init() {
 		Assume: []string{"math/big exact"},
 		Classes: []fw.Class{
 			{Name: "bursts", Quick: 64, Thorough: 2000, Chunk: 4, Run: c20Burst},
+			{Name: "every-length", Quick: 9001, Thorough: 70001, Chunk: 50, Run: c20EveryLength, Exhaustive: "closed-form sequences of every number of points from 0 to the class count"},
 			{Name: "random", Quick: 150000, Thorough: 3000000, Run: c20Random},
 			{Name: "exhaustive-3x3", Quick: 1 + 9 + 81 + 729 + 6561, Thorough: exhN, Run: c20Exhaustive, Exhaustive: "every sequence of 0..4 (quick) / 0..6 (thorough) points on a 3x3 grid x thresholds {0, 0.5, 1, 1.5}"},
 		},
